@@ -372,10 +372,12 @@ def coercion_atoms(fn: ast.AST) -> dict[str, bool]:
     atoms["object.required-field"] = _has(body, lambda n: isinstance(n, ast.Call) and call_name(n) == "is_required_input_field")
     atoms["object.default-applied"] = _has(body, lambda n: isinstance(n, ast.Call) and call_name(n) == "coerce_default_value")
     atoms["object.recurse"] = _has(body, recursion)
-    one_ofs = [n for s in body for n in ast.walk(s) if isinstance(n, ast.If) and unparse(n.test) == "type_.is_one_of"
-               and (parent(n) is ob)]
+    # `if type_.is_one_of:` with the conditions in its body, or `if type_.is_one_of and (<conditions>):`
+    one_ofs = [n for s in body for n in ast.walk(s) if isinstance(n, ast.If) and (parent(n) is ob) and (
+        unparse(n.test) == "type_.is_one_of" or (
+            isinstance(n.test, ast.BoolOp) and isinstance(n.test.op, ast.And) and any(unparse(v) == "type_.is_one_of" for v in n.test.values)))]
     atoms["oneof.branch"] = bool(one_ofs)
-    ob_body = [s for o in one_ofs for s in o.body]
+    ob_body = [s for o in one_ofs for s in o.body] + [o.test for o in one_ofs]
     atoms["oneof.count-is-one"] = _has(ob_body, lambda n: isinstance(n, ast.Compare) and isinstance(n.ops[0], ast.NotEq)
                                        and unparse(n.comparators[0]) == "1" and "len(" in unparse(n.left))
     atoms["oneof.null-rejected"] = _has(ob_body, is_null_test)
